@@ -28,6 +28,8 @@ EGS = [
     {"svc": 0x1111, "inst": 2, "major": 1, "eg": 1, "sockname": ["10.0.0.1", 4002], "proto": "UDP"},
     {"svc": 0x1111, "inst": 1, "major": 1, "eg": 1, "sockname": ["fd00::1", 4000, 0, 0], "proto": "UDP"},  # the first eventgroup again, on another local endpoint
 ]
+# ... and a client with many eventgroups of one service (more than any per-message limit one might think of)
+EGS_MANY = EGS + [{"svc": 0x3333, "inst": 1, "major": 1, "eg": 0x100 + i, "sockname": ["10.0.0.1", 4003], "proto": "UDP"} for i in range(40)]
 OFFS = [-1e-4, -RES / 4, 0.0, RES / 4, 1e-4]
 
 
@@ -45,13 +47,20 @@ def gen(seed, idx, tier):
     requested = set()
     starts = []
     alive = False
-    NS = r.choice([3, 3, 4])  # servers
+    servers = r.choice([[0, 1, 2], [0, 1, 2], [0, 1, 2, 3], [0, 4, 5], [4, 5, 1, 2]])  # 4, 5: link-local IPv6 twins (scope ids 2, 3)
+    NS = len(servers)
     if r.random() < 0.3:
         # a full house from the start: something is requested from every server before the first round
-        for pi in range(NS):
+        for pi in servers:
             ei = r.randrange(len(EGS))
             ops.append({"k": "call", "t": 0.0, "f": "subscribe", "a": [ei, pi]})
             requested.add((ei, pi))
+        if r.random() < 0.3:
+            # one server is asked for 17-40 eventgroups
+            cfg["eventgroups"] = EGS_MANY
+            for ei in range(len(EGS), len(EGS) + r.choice([17, 20, 31, 33, 40])):
+                ops.append({"k": "call", "t": 0.0, "f": "subscribe", "a": [ei, servers[0]]})
+                requested.add((ei, servers[0]))
         ops.append({"k": "call", "t": 0.0, "f": "sub_start", "a": []})
         starts.append(0.0)
         alive = True
@@ -81,7 +90,7 @@ def gen(seed, idx, tier):
                 behind = False
         x = r.random()
         if x < 0.40:
-            ei, pi = r.randrange(len(EGS)), r.randrange(NS)
+            ei, pi = r.randrange(len(EGS)), r.choice(servers)
             if (ei, pi) in requested:
                 f, a = "stop_subscribe", [ei, pi]
                 requested.discard((ei, pi))
